@@ -1,6 +1,6 @@
 SPECIFICATION Spec
 CONSTANTS
-  Annots <- AnAll
+  Annots <- AnSmall
   OvChoices <- OvSmall
   DfChoices <- DfFull
   SpChoices <- SpNone
